@@ -25,9 +25,12 @@ def is_coercible_exception(exception: Exception) -> bool:
     :return: whether or not the exception is coercible
     :rtype: bool
     """
-    return hasattr(exception, "coerce_value") and callable(
-        exception.coerce_value
-    )
+    # Looking the attribute up must never fail: an exception class may
+    # implement `__getattr__` and raise something else than AttributeError
+    try:
+        return callable(getattr(exception, "coerce_value", None))
+    except Exception:  # pylint: disable=broad-except
+        return False
 
 
 def to_graphql_error(
